@@ -154,3 +154,34 @@ macro_rules! for_all_vec_types {
         $m!(USizeVec4, usize, 4, BVec4, "USizeVec4");
     };
 }
+
+
+/// A `Vec3A` with the given visible lanes, built the ways users come by one: `from_array` (fourth lane = z), `from_vec4`
+/// (fourth lane arbitrary) or after an in-place write of z (fourth lane keeps the old z).  The route is a deterministic
+/// function of the lane bits.  Under scalar-math there is no fourth lane and all routes coincide.
+pub fn mk3a(a: [f32; 3]) -> glam::Vec3A {
+    use glam::{Vec3A, Vec4};
+    let h = vcommon::rng::mix(a[0].to_bits() as u64 | ((a[1].to_bits() as u64) << 32), a[2].to_bits() as u64 ^ 0x51ed);
+    let junk = [0.0f32, 1.0, -7.5e3, f32::INFINITY, f32::NEG_INFINITY, f32::NAN, 1e-40, 3e38][((h >> 8) % 8) as usize];
+    match h % 4 {
+        0 => Vec3A::from_array(a),
+        1 | 2 => Vec3A::from_vec4(Vec4::new(a[0], a[1], a[2], junk)),
+        _ => {
+            let mut v = Vec3A::new(a[0], a[1], junk);
+            v.z = a[2];
+            v
+        }
+    }
+}
+pub trait MkLanes<S, const N: usize>: Sized {
+    fn mk(a: [S; N]) -> Self;
+}
+macro_rules! plain_mk {
+    ($($T:ident, $S:ty, $N:expr);*) => {$( impl MkLanes<$S, $N> for glam::$T { fn mk(a: [$S; $N]) -> Self { glam::$T::from_array(a) } } )*};
+}
+plain_mk!(Vec2, f32, 2; Vec3, f32, 3; Vec4, f32, 4; DVec2, f64, 2; DVec3, f64, 3; DVec4, f64, 4);
+impl MkLanes<f32, 3> for glam::Vec3A {
+    fn mk(a: [f32; 3]) -> Self {
+        mk3a(a)
+    }
+}
